@@ -116,43 +116,3 @@ Proof.
 Qed.
 
 End VecContracts.
-
-(* the family statement pinned in Props/C20.v *)
-Definition entry_contract_vector_stmt : Prop := forall (A : Arith) (u v : list A) (s e t : nat),
-  let n1 := Z.of_nat (length u) in let n2 := Z.of_nat (length v) in
-  (* add (&u + &v) *)
-  (g_vec_add_ref n1 n2 = true -> vadd u v = Panic Guard) /\
-  (g_vec_add_ref n1 n2 = false -> exists r, vadd u v = Ok r /\ length r = length u) /\
-  (* sub *)
-  (g_vec_sub_ref n1 n2 = true -> vsub u v = Panic Guard) /\
-  (g_vec_sub_ref n1 n2 = false -> exists r, vsub u v = Ok r /\ length r = length u) /\
-  (* += *)
-  (g_vec_add_assign n1 n2 = true -> vadd_assign u v = Panic Guard) /\
-  (g_vec_add_assign n1 n2 = false -> exists r, vadd_assign u v = Ok r /\ length r = length u) /\
-  (* -= *)
-  (g_vec_sub_assign n1 n2 = true -> vsub_assign u v = Panic Guard) /\
-  (g_vec_sub_assign n1 n2 = false -> exists r, vsub_assign u v = Ok r /\ length r = length u) /\
-  (* dot *)
-  (g_vec_dot n1 n2 = true -> dot u v = Panic Guard) /\
-  (g_vec_dot n1 n2 = false -> exists x, dot u v = Ok x) /\
-  (* dot_f64 with t workers *)
-  (g_vec_dot_f64 n1 n2 = true -> pardot t u v = Panic Guard) /\
-  (1 <= t -> g_vec_dot_f64 n1 n2 = false -> exists x, pardot t u v = Ok x) /\
-  (* sum_slice / product_slice *)
-  (g_vec_sum_slice n1 (Z.of_nat s) (Z.of_nat e) = true -> sum_slice u s e = Panic Guard) /\
-  (g_vec_sum_slice n1 (Z.of_nat s) (Z.of_nat e) = false -> exists x, sum_slice u s e = Ok x) /\
-  (g_vec_product_slice n1 (Z.of_nat s) (Z.of_nat e) = true -> product_slice u s e = Panic Guard) /\
-  (g_vec_product_slice n1 (Z.of_nat s) (Z.of_nat e) = false -> exists x, product_slice u s e = Ok x).
-
-Lemma entry_contract_vector_lemma : entry_contract_vector_stmt.
-Proof.
-  intros A u v s e t n1 n2. subst n1 n2.
-  split; [apply rejects_vec_add_ref|]. split; [apply accepts_vec_add_ref|].
-  split; [apply rejects_vec_sub_ref|]. split; [apply accepts_vec_sub_ref|].
-  split; [apply rejects_vec_add_assign|]. split; [apply accepts_vec_add_assign|].
-  split; [apply rejects_vec_sub_assign|]. split; [apply accepts_vec_sub_assign|].
-  split; [apply rejects_vec_dot|]. split; [apply accepts_vec_dot|].
-  split; [apply rejects_vec_dot_f64|]. split; [apply accepts_vec_dot_f64|].
-  split; [apply rejects_vec_sum_slice|]. split; [apply accepts_vec_sum_slice|].
-  split; [apply rejects_vec_product_slice|]. apply accepts_vec_product_slice.
-Qed.
